@@ -46,7 +46,9 @@ def run(chk, binary, count, max_objects):
         byid = {i: (row, w) for i, row, w in s}
         for cid, which in bad:
             chk.cov["correspondence_mismatches"] += 1
-            chk.broken_obligation("correspondence", "exact accuracy model and ScoreState::accuracy differ by more than 1e-12",
+            chk.broken_obligation("correspondence",
+                                  "ScoreState::accuracy is not the binary64 quotient the float model computes (bit comparison)"
+                                  if which == 3 else "exact accuracy model and ScoreState::accuracy differ by more than 1e-12",
                                   {"row": byid[cid][0], "accuracy_word": byid[cid][1]})
     chk.cov.setdefault("traces_validated_against_model", 0)
     chk.cov["traces_validated_against_model"] += len(accs)
